@@ -211,6 +211,13 @@ static void run(void)
 				put16(in + 32, ext[sim_choose(6)]);	/* block align */
 				put16(in + 34, ext[sim_choose(ne)]);	/* bits per sample */
 				put32(in + off_data_size, ext[sim_choose(ne)]);
+				if (get32(in + off_fmt_size) >= 40 && sim_choose(2)) {
+					/* the extension's own format tag (first two bytes of the GUID) */
+					static const uint16_t tags[] = { 0xfffe, 0x0001, 0x0003, 0x0000, 0xffff, 0x0055 };
+					put16(in + 44, tags[sim_choose(6)]);
+					if (sim_choose(2))
+						put16(in + 20, 0xfffe);
+				}
 				if (sim_choose(2))
 					put32(in + 4, 0xffffffffu);	/* keep the RIFF size plausible */
 				sim_fault(F_FIELD_EXTREMES);
